@@ -162,10 +162,16 @@ def register(api):
         fbody = fn_body(cb, "filter_duplicates")
         if not re.search(r"new_expiration\s*>\s*\*current_expiration", fbody):
             raise E("filter_duplicates: replacement test is no longer `new_expiration > *current_expiration`")
-        m = re.search(r"let\s+fingerprint\s*=\s*path\.(\w+)\(\)", fbody)
+        # the de-duplication key: the interface sequence of the path metadata
+        m = re.search(r"unique_paths\.entry\((\w+)\)", fbody)
         if not m:
             raise E("filter_duplicates: key not recognised")
-        vals["DEDUP_KEY"] = m.group(1)
+        keyvar = m.group(1)
+        if not re.search(r"let\s+" + keyvar + r"\s*:\s*Vec<PathInterface>\s*=\s*path\s*\.metadata\s*\.as_ref\(\)\s*"
+                         r"\.and_then\(\|metadata\|\s*metadata\.interfaces\.as_ref\(\)\)\s*"
+                         r"\.map\(\|interfaces\|\s*interfaces\.iter\(\)\.map\(\|i\|\s*i\.interface\)\.collect\(\)\)", fbody):
+            raise E("filter_duplicates: the key is no longer the interface sequence of the path metadata")
+        vals["DEDUP_KEY"] = "interfaces"
 
         # what the data-plane fingerprint hashes per hop field of a standard path
         fp = api.strip_comments(api.read(FPR))
